@@ -52,6 +52,9 @@ def workloads(rng, tier):
             wl.append(('delh-first2-' + tag, hbase + ['del 0,2', 'pub ' + m(), 'close']))
             wl.append(('delh-tail-' + tag, hbase + ['del 3', 'pub ' + m(), 'close']))
             wl.append(('delh-all-' + tag, hbase + ['del 0,1,2,3', 'pub ' + m(), 'close']))
+            # trims: a bound inside a sealed segment (the survivors get a new base), a count that spans segments
+            wl.append(('trimo-mid-' + tag, base + ['trimo 1', 'close']))
+            wl.append(('trimc-' + tag, base + ['trimc 2', 'close']))
             # reopen with eager migration, and Migrate
             # (three publishes: the first segment is sealed, its migration is not repaired by the recovery of the head)
             wl.append(('migrate-' + tag, [op_open(90, v=1), 'pub ' + m() + ' ' + m(), 'pub ' + m() + ' ' + m(), 'pub ' + m(), 'close',
@@ -203,7 +206,12 @@ def p_image(name, img, states, run_ops):
         ok = msgs[:len(a_list)] == a_list and msgs[len(a_list):] == batch[:len(msgs) - len(a_list)] and len(msgs) >= len(a_list)
         if not ok:
             fails.append(('acked_then_batch_prefix', 'recovered %s; acknowledged %s; batch %s' % (sorted(got), sorted(A_live), [b.split('|')[0] for b in batch])))
-    elif opk in ('del', 'delm') or opk.startswith('trim'):
+    elif opk in ('delm', 'cupd', 'cdel', 'compact') or (opk.startswith('trim') and not opk.startswith('trim1')):
+        # a multi-pass helper is a sequence of Deletes, one per segment: some of its passes may be applied - each wholly:
+        # whatever is gone was to be removed, whatever was to stay is there, unaltered
+        if not (set(b_list) <= set(msgs) <= set(a_list)) or msgs != [m for m in a_list if m in set(msgs)]:
+            fails.append(('delete_all_or_nothing', 'recovered %s; before %s; after %s (multi-pass)' % (sorted(got), sorted(A_live), sorted(B_live))))
+    elif opk == 'del' or opk.startswith('trim'):
         if msgs != a_list and msgs != b_list:
             fails.append(('delete_all_or_nothing', 'recovered %s; before %s; after %s' % (sorted(got), sorted(A_live), sorted(B_live))))
     else:
@@ -492,6 +500,50 @@ def crash_extra(pid, tier, seed, powerloss):
                                    'AutoSync; one image after every FS mutation plus torn variants of every append; each image: '
                                    'Open(Recover), scan, all Get, key and time lookups, Stat, second recovery, publish, Check'))
         return viol, cov
+    finally:
+        if not os.environ.get('KV_KEEP'):
+            shutil.rmtree(d, ignore_errors=True)
+
+
+LITE = {
+    # property -> (workload name prefixes, clauses of p_image that are this property's own sentence)
+    'C02': (('delh-tail-', 'delh-all-', 'delr-all-', 'pub-'), ('next_offset_not_backwards',)),
+    'C12': (('delr-', 'delh-'), ('delete_all_or_nothing', 'nothing_else', 'acked_then_batch_prefix')),
+    'C15': (('trimo-', 'trimc-'), ('delete_all_or_nothing', 'nothing_else', 'acked_then_batch_prefix')),
+}
+
+
+def crash_lite(pid, tier, seed):
+    """C02 / C12 / C15 say what a call may do to the log 'in the life of a log directory': also when the call is cut
+    short (a crash, or an I/O error half-way - the directory is then what a crash at that step leaves).  The delete /
+    trim / emptying workloads of the C05 harness, one index configuration, judged only by the clauses that are this
+    property's own sentence; the views-agree clauses, the recovery correspondence and the known findings of C05 stay
+    with C05."""
+    prefixes, clauses = LITE[pid]
+    rng = random.Random(codec.kv_seed(seed, 'c05'))
+    wl = [w for w in workloads(rng, tier) if w[0].startswith(prefixes) and ('-k1t1v' in w[0] or tier != 'quick')]
+    d, paths = run_crash(wl, 'crashlite-' + pid)
+    try:
+        viol, nimg = [], 0
+        for p in paths:
+            impl = parse_impl(p + '.impl')
+            runs = {n[:-4]: c for n, c in impl.items() if n.endswith('@run')}
+            for name, img in impl.items():
+                if name.endswith('@run') or 'powerloss=' in img['header']:
+                    continue
+                run_ops = runs[name.split('@')[0]]['ops']
+                nimg += 1
+                fails = [f for f in p_image(name, img, acked_states(run_ops), run_ops) if f[0] in clauses]
+                if fails:
+                    viol.append(('P', '# %s violated on crash image %s (the directory as it is if the call stops at this file-system step)\n# %s\n'
+                                      '# failing clauses:\n%s\n# workload:\n%s\n# recovered transcript:\n%s\n' % (
+                                          pid, name, img['header'], '\n'.join('#   %s: %s' % f for f in fails),
+                                          '\n'.join('#   ' + o for o, _ in run_ops),
+                                          '\n'.join('%s\n%s' % (o, '\n'.join('= ' + r for r in rs)) for o, rs in img['ops'])[:4000])))
+        return viol, dict(interrupted_calls=dict(workloads=len(wl), images=nimg, clauses=list(clauses),
+                                                 rule='every file-system step of the delete / trim / emptying workloads of the C05 '
+                                                      'harness as the point where the call stops; Open(Recover) and a full scan of '
+                                                      'each image, judged by this property\'s own clauses'))
     finally:
         if not os.environ.get('KV_KEEP'):
             shutil.rmtree(d, ignore_errors=True)
